@@ -200,7 +200,7 @@ theorem mkRegion_line {len : Int} (s : State) (cands subs : List Feat)
   have hb := hull_bounds (subs ++ cands) hne h
   have hchk : collectionInitCheck (hullLoc (subs ++ cands)) = .ok () :=
     collectionInitCheck_simple _ hb.1 (by simp only; omega)
-  simp only [mkRegion, hemp, hany, Bool.false_eq_true, if_false, hconn, hchk, bind, Except.bind, pure, Except.pure]
+  simp only [mkRegion, regionWrap, hemp, hany, Bool.false_eq_true, if_false, hconn, hchk, bind, Except.bind, pure, Except.pure]
   rw [setParents_ok]
   · rfl
   · intro c hc
